@@ -160,14 +160,22 @@ def cf1d_geom(draw, max_n=6, bounds_kinds=("none", "none", "contig", "gaps"), mi
 
 
 @st.composite
-def cf2d_geom(draw, shoc_simple=False, max_n=5, holes=True, bounds=None, decoy=False):
+def cf2d_geom(draw, shoc_simple=False, max_n=5, holes=True, bounds=None, decoy=False, twist=False):
     nj, ni = _shape(draw, max_n, max_n)
     nodes = draw(lattice(nj, ni))
     names = draw(st.sampled_from(SHOC_SIMPLE_NAMES if shoc_simple else CF2D_NAMES))
+    hole_cells = draw(hole_mask(nj, ni, allow=holes))
+    with_bounds = draw(st.booleans()) if bounds is None else bounds
+    twisted = []
+    if twist and with_bounds and nj * ni > 1 and draw(st.integers(0, 3)) == 0:
+        spare = draw(st.integers(0, nj * ni - 1))
+        twisted = [[j, i] for j in range(nj) for i in range(ni)
+                   if not hole_cells[j][i] and j * ni + i != spare and draw(st.integers(0, 3)) == 0]
     return {
         "nodes": nodes,
-        "holes": draw(hole_mask(nj, ni, allow=holes)),
-        "bounds": draw(st.booleans()) if bounds is None else bounds,
+        "holes": hole_cells,
+        "twisted": twisted,
+        "bounds": with_bounds,
         "names": names,
         "coords_as": draw(st.sampled_from(["coord", "var"])),
         "bounds_as": draw(st.sampled_from(["var", "var", "coord"])),
@@ -461,9 +469,9 @@ def geometry(draw, conv, **kw):
     if conv == "cf1d":
         return draw(cf1d_geom(**{k: v for k, v in kw.items() if k in ("max_n", "bounds_kinds", "min_n")}))
     if conv == "cf2d":
-        return draw(cf2d_geom(False, **{k: v for k, v in kw.items() if k in ("max_n", "holes", "bounds", "decoy")}))
+        return draw(cf2d_geom(False, **{k: v for k, v in kw.items() if k in ("max_n", "holes", "bounds", "decoy", "twist")}))
     if conv == "shoc_simple":
-        return draw(cf2d_geom(True, **{k: v for k, v in kw.items() if k in ("max_n", "holes", "bounds", "decoy")}))
+        return draw(cf2d_geom(True, **{k: v for k, v in kw.items() if k in ("max_n", "holes", "bounds", "decoy", "twist")}))
     if conv in ("arakawa", "shoc_standard"):
         return draw(arakawa_geom(**{k: v for k, v in kw.items() if k in ("max_n", "holes")}))
     if conv == "ugrid":
